@@ -10,7 +10,9 @@ use std::collections::BTreeMap;
 pub const DB: &str = "d";
 pub const DBTOK: &str = "dbtok";
 
-pub const KEY_ARGS: &[&str] = &["$$secret", "$$token", "$$user_other", "$$permission_$other", "$$permission_$bob", "$$user_bob", "$secret", "secret", "a"];
+// (the last three: a secure key spelled with a line break in front of / inside its prefix; nun-db drops line breaks from
+// key names, the access check and the look-up must mean the same key)
+pub const KEY_ARGS: &[&str] = &["$$secret", "$$token", "$$user_other", "$$permission_$other", "$$permission_$bob", "$$user_bob", "$secret", "secret", "a", "\r$$secret", "$\r$secret", "$\n$token"];
 pub const PATTERNS: &[&str] = &["*", "$$*", "*$$", "", "$$", "$$s*", "*t", "$*"];
 
 /// one attacker command, built from a template so it is well-formed enough to reach the handlers
